@@ -6,10 +6,9 @@ RULE = ("each term (P2,P3,S1,S2_trivial,S2_easy,S2_hard,Sigma,B,Phi0,AC,D) throu
         "(y,z,k|c) — exhaustive small x × every admissible parameter choice, boundary-heavy sample beyond — against the naive "
         "defining sum evaluated by pcdrv (PcModel/Formulas.lean); identities S1+S2+pi(y)-1-P2 and A-B+C+D+Phi0+Sigma for x up to "
         "1e12 against the other decomposition; distinct = distinct op lines with x > 100")
-TRUSTED = ["L1 defining sums PcModel/Formulas.lean (DESIGN 5.1) ARE the definitions the property speaks of; leaf-class sums "
-           "(S2_trivial/easy/hard, A, C, D) have no definition apart from the classification and are tied to L0 only "
-           "through the identities",
-           "identity A-B+C+D+Phi0+Sigma = pi(x): proved only as far as PcProps/C08.lean states (hypothesis GourdonASigma otherwise)"]
+TRUSTED = ["model side = executable defining sums PcModel/Formulas.lean; each is PROVED equal to its Pc.Spec definition and the "
+           "totals are proved = pi(x) for all x and admissible parameters (PcProofs/Formulas*.lean, executable_dr_total / "
+           "executable_gourdon_total); the tie of the C++ terms to them is this sampled correspondence"]
 ASSUMPTIONS = ["explicit parameters are restricted to what the tuning options can produce"]
 
 
@@ -25,7 +24,7 @@ def streams(ctx):
     rng = ctx.rng
     ops = []
     # exhaustive small scope: every x, every admissible (y, z) for Gourdon, every y for DR
-    xmax = 130 if ctx.quick else 600
+    xmax = 220 if ctx.quick else 600
     for x in range(2, xmax + 1):
         x13, sq = gen.iroot(3, x), gen.isqrt(x)
         k = gen.get_k(x)
@@ -36,8 +35,12 @@ def streams(ctx):
         x16 = max(gen.iroot(6, x), 1)
         for yd in range(max(x13, 1), x13 * x16 + 1):
             ops.append("ident_dr 64 %d %d %d 1" % (x, yd, gen.get_c(yd)))
+    # leaves with x/(q r) = y exactly (easy/hard class boundary) need q >= 23, i.e. x >= ~19000: fixed cases
+    for (x, yd) in ((19343, 29), (103678, 85), (19343 * 8, 58)):
+        ops.append("ident_dr 64 %d %d %d 1" % (x, yd, gen.get_c(yd)))
+        ops.append("ident_dr 128 %d %d %d 2" % (x, yd, gen.get_c(yd)))
     # boundary-heavy sample up to 2e7 (model-side table bound) with single terms and identities
-    n = 60 if ctx.quick else 1500
+    n = 250 if ctx.quick else 1500
     for x in gen.structured_x(rng, 200, 2 * 10 ** 7, n):
         y, z = gen.gourdon_yz(rng, x)
         k = gen.get_k(x)
@@ -65,7 +68,7 @@ def streams(ctx):
 
     # identities at larger x: both decompositions with random admissible parameters must give the same total
     ops2 = []
-    n2 = 25 if ctx.quick else 400
+    n2 = 60 if ctx.quick else 400
     hi = 10 ** 11 if ctx.quick else 10 ** 13
     for x in gen.structured_x(rng, 10 ** 8, hi, n2):
         y, z = gen.gourdon_yz(rng, x, 0.3)
